@@ -499,7 +499,7 @@ def run_case(case, obs):
     area_tot = float(tmap.sum())
     obs.check(abs(area_tot - geom.analytic_area(reg)) <= 1e-7 * max(1.0, area_tot), 'oracle-selfcheck', f'oracle area {area_tot} vs analytic {geom.analytic_area(reg)}', 'oracle')
     prev = None
-    for n in (1, 2, 3, 5, 8, 12):
+    for n in (1, 2, 3, 5, 8, 12) + ((25, 40) if max(nx, ny) <= 14 else ()):
         m = reg.to_mask(mode='subpixels', subpixels=n)
         d = np.asarray(m.data)
         # N_cut: sub-cells whose centre is within half a sub-cell diagonal of the boundary
